@@ -115,7 +115,7 @@ fn get_prototype_member_path(member: &MemberExpr, parts: &mut Vec<Ident>) -> boo
         } else if member.obj.is_ident() {
             let last_ident = member.obj.as_ident().unwrap();
             parts.push(last_ident.clone());
-        } else if !(member.obj.is_this() || member.obj.is_lit()) {
+        } else if !is_static_base(&member.obj) {
             // `g().concat.call(x)`: the holder of the method is not a static path. It is read after the `this`
             // argument has been evaluated, which would reorder the effects of the two
             return false;
@@ -131,14 +131,28 @@ fn get_prototype_member_path(member: &MemberExpr, parts: &mut Vec<Ident>) -> boo
 // names or literals
 fn is_static_member(member: &MemberExpr) -> bool {
     let static_prop = match &member.prop {
-        MemberProp::Computed(computed) => computed.expr.is_ident() || computed.expr.is_lit(),
+        MemberProp::Computed(computed) => {
+            let key = strip_parens(&computed.expr);
+            key.is_ident() || key.is_lit()
+        }
         _ => true,
     };
-    static_prop
-        && match &*member.obj {
-            Expr::Member(obj_member) => is_static_member(obj_member),
-            obj => obj.is_ident() || obj.is_this() || obj.is_lit(),
-        }
+    static_prop && is_static_base(&member.obj)
+}
+
+// what a static path starts from: a name, `this`, a literal or another static path, parenthesised or not
+fn is_static_base(expr: &Expr) -> bool {
+    match strip_parens(expr) {
+        Expr::Member(member) => is_static_member(member),
+        base => base.is_ident() || base.is_this() || base.is_lit(),
+    }
+}
+
+fn strip_parens(expr: &Expr) -> &Expr {
+    match expr {
+        Expr::Paren(paren) => strip_parens(&paren.expr),
+        _ => expr,
+    }
 }
 
 fn all_args_are_literal(args: &[ExprOrSpread]) -> bool {
